@@ -216,6 +216,14 @@ impl Probe {
         }
     }
 }
+impl Probe {
+    /// The measured region contained `n` calls into rustrtc: report time and bytes per call.
+    pub fn per_call(&mut self, n: u64) {
+        let n = n.max(1);
+        self.ns /= n;
+        self.bytes /= n;
+    }
+}
 impl Default for Probe {
     fn default() -> Self {
         Self::new()
